@@ -220,18 +220,60 @@ Theorem C07_monitor_signature_ok : forall now uri sg ts secret,
 Proof. exact sig_monitor_ok. Qed.
 Print Assumptions C07_monitor_signature_ok.
 
-Theorem C07_monitor_serve_ok : forall c now ep q,
-  (forall src, serve c now ep q = ORedirect src Verbatim -> forallb (fun b => b <? 128) src = true ->
-     serve_holds c now ep q 302 (Some (hex_escape_non_ascii src)) None = true) /\
-  (forall a loc, serve c now ep q = OIdP a -> serve_holds c now ep q 302 loc (Some a) = true) /\
-  (forall src hw, serve c now ep q = ORedirect src hw ->
-     rfc_in_domain src (c_domains c) = true /\
-     ((ep = EpSignIn \/ ep = EpSignOut) ->
-        src = q_uri q /\ sig_spec now (q_uri q) (q_sig q) (q_ts q) (c_secret c) = true)).
+(* ---- 5. the request on the wire: ParseForm precedence ------------------------------------- *)
+(* [serve_wire] = [serve] after reading the parameters the way net/http does: Form.Get is the first
+   body value when the body is read (POST + urlencoded), else the first query value. A code or
+   sign-out redirect goes to exactly that value, and BOTH gates judged that very value, with sig
+   and ts read the same way — whatever else the client put in the query or the body. *)
+Theorem C07_wire_redirect_reads_form : forall c now ep w src hw,
+  serve_wire c now ep w = ORedirect src hw -> (ep = EpSignIn \/ ep = EpSignOut) ->
+  src = form_get w k_redirect_uri /\
+  valid_redirect_uri src (root_domains c) = true /\
+  valid_signature now src (sig_lookup (w_sigtab w) (form_get w k_sig)) (form_get w k_ts) (c_secret c) = true.
+Proof. exact wire_redirect_reads_form. Qed.
+Print Assumptions C07_wire_redirect_reads_form.
+
+(* ... so the target is a presented value that a presented (sig, ts) pair vouches for *)
+Theorem C07_wire_redirect_presented : forall c now ep w src hw,
+  serve_wire c now ep w = ORedirect src hw -> (ep = EpSignIn \/ ep = EpSignOut) ->
+  In src (presented w k_redirect_uri) /\
+  exists s t, In s (presented w k_sig) /\ In t (presented w k_ts) /\
+              valid_signature now src (sig_lookup (w_sigtab w) s) t (c_secret c) = true.
+Proof. exact wire_redirect_presented. Qed.
+Print Assumptions C07_wire_redirect_presented.
+
+(* non-vacuity, and the precedence itself: POST /sign_out with a signed in-domain link in the query
+   and an attacker URI in a urlencoded body is judged on the BODY value (400); with the signed link
+   in the body it is redirected there *)
+Example C07_wire_body_wins :
+  let good := [104;116;116;112;115;58;47;47;97;46;101;120;46;99;111;109;47] in             (* https://a.ex.com/ *)
+  let evil := [104;116;116;112;115;58;47;47;120;46;110;101;116;47] in                      (* https://x.net/ *)
+  let c := {| c_domains := [[101;120;46;99;111;109]]; c_secret := [115]; c_client_id := [105]; c_scheme := [104;116;116;112;115] |} in
+  let w q b := {| w_meth := POST; w_form_ok := true; w_ctype := CtUrlencoded;
+                  w_query := q; w_body := b;
+                  w_sigtab := [([83], SigTag (Mac [115] (good ++ dec 1000)))]; w_statetab := []; w_starttab := []; w_qoktab := [];
+                  w_session := SessNone; w_provider_valid := true; w_revoke_ok := true;
+                  w_cb_redeem_ok := true; w_cb_csrf := None; w_cb_user_ok := true |} in
+  let signed := [(k_redirect_uri, good); (k_sig, [83]); (k_ts, [49;48;48;48])] in
+  serve_wire c (1100 * ns)%Z EpSignOut (w signed [(k_redirect_uri, evil)]) = OErr 400 /\
+  serve_wire c (1100 * ns)%Z EpSignOut (w [(k_redirect_uri, evil)] signed) = ORedirect good Verbatim.
+Proof. split; vm_compute; reflexivity. Qed.
+
+(* ---- 6. the monitor on wire requests accepts the model's predictions ----------------------- *)
+Theorem C07_monitor_serve_ok : forall c now ep w,
+  (forall src hw, ep = EpSignOut -> serve_wire c now ep w = ORedirect src hw -> forallb (fun b => b <? 128) src = true ->
+     serve_holds c now ep w 302 (Some (hex_escape_non_ascii src)) None = true) /\
+  (forall src hw, ep = EpCallback -> serve_wire c now ep w = ORedirect src hw -> forallb (fun b => b <? 128) src = true ->
+     serve_holds c now ep w 302 (Some (hex_escape_non_ascii src)) None = true) /\
+  (forall a loc, serve_wire c now ep w = OIdP a -> serve_holds c now ep w 302 loc (Some a) = true) /\
+  (forall src, serve_wire c now ep w = ORedirect src WithCode ->
+     ep = EpSignIn /\ In src (presented w k_redirect_uri) /\
+     rfc_in_domain src (c_domains c) = true /\ signed_among c now w src = true).
 Proof.
-  intros c now ep q. split; [|split].
-  - intros src. exact (serve_holds_model_verbatim c now ep q src).
-  - intros a loc. exact (serve_holds_model_idp c now ep q a loc).
-  - intros src hw H. destruct (serve_monitor_redirect c now ep q src hw H) as [A [_ [B _]]]. split; [exact A | exact B].
+  intros c now ep w. split; [|split; [|split]].
+  - intros src hw -> H A. exact (serve_holds_wire_sign_out c now w src hw H A).
+  - intros src hw -> H A. exact (serve_holds_wire_callback c now w src hw H A).
+  - intros a loc. exact (serve_holds_wire_idp c now ep w a loc).
+  - intros src. exact (serve_wire_code_clauses c now ep w src).
 Qed.
 Print Assumptions C07_monitor_serve_ok.
